@@ -20,10 +20,14 @@ after a later call on other data and after the caller has overwritten its arrays
 Decided by projection on the real output, NOT by TLC: Matched (max |f(t) - true map| at held-out events inside the
 matched span <= 2 ms) and Drift (|reported - true| <= 5 ppm + 10 sigma of a straight-line fit with the given jitter).
 """
+import contextlib
 import copy
 import json
+import numbers
 import random
 import re
+import signal
+import threading
 from concurrent.futures import ThreadPoolExecutor
 
 import numpy as np
@@ -112,6 +116,88 @@ def vary(sc, rng, i):
             sc["call"] = "pos"
     sc["variant"] = kind
     return sc
+
+
+# ---- defensive observation of what the real code hands back (robustness audit after round h) -------------------------------------
+# Whatever sync_timestamps returns instead of (mapping, drift[, ia, ib]) as documented - None, a string, arrays of another shape or
+# element type, an exception of any class, no return at all - is an observation of the clause `Returns` (recorded in rec["exc"], the
+# trace spec turns it into "Returns:<what>"), never a failure of this harness's own arithmetic.
+CALL_DEADLINE_S = 120      # one scenario (the judged call and the calls around it) takes milliseconds
+MAX_HANGS = 3              # scenarios that may run into the deadline before the remaining ones are not started
+
+
+class _Malformed(Exception):
+    """a returned value is not of the kind the docstring promises"""
+    def __init__(self, what):
+        super().__init__(what)
+        self.what = what
+
+
+class _Hang(BaseException):
+    """not an Exception: must pass through the `except Exception` clauses around the calls that are not judged"""
+
+
+@contextlib.contextmanager
+def _deadline(seconds):
+    """bound the time the real code may take (a loop that never ends); only where signals can be delivered"""
+    if not hasattr(signal, "setitimer") or threading.current_thread() is not threading.main_thread():
+        yield
+        return
+
+    def on_alarm(signum, frame):
+        raise _Hang()
+    old = signal.signal(signal.SIGALRM, on_alarm)
+    signal.setitimer(signal.ITIMER_REAL, seconds)
+    try:
+        yield
+    finally:
+        signal.setitimer(signal.ITIMER_REAL, 0)
+        signal.signal(signal.SIGALRM, old)
+
+
+def _real(x, what):
+    """one real number (Python / NumPy real scalar, or an array holding exactly one); NaN and inf are numbers and are judged by the
+    numeric clauses"""
+    if x is None or isinstance(x, (bool, np.bool_, str, bytes)):
+        raise _Malformed(what)
+    if isinstance(x, numbers.Real):
+        return float(x)
+    try:
+        a = np.asarray(x)
+    except Exception:  # noqa
+        raise _Malformed(what)
+    if a.size != 1 or a.dtype.kind not in "fiu":
+        raise _Malformed(what)
+    return float(a.reshape(-1)[0])
+
+
+def _index_vector(v, what):
+    """a one-dimensional vector of integers (array, list or tuple)"""
+    if v is None or isinstance(v, (str, bytes)):
+        raise _Malformed(what)
+    try:
+        a = np.asarray(v)
+    except Exception:  # noqa
+        raise _Malformed(what)
+    if a.ndim == 1 and a.size == 0:
+        return []
+    if a.ndim != 1 or a.dtype.kind not in "iu":
+        raise _Malformed(what)
+    return [int(x) for x in a]
+
+
+def _eval_map(f, th, scalar):
+    """the returned mapping at the held-out times: one real value per time"""
+    if scalar:
+        return np.array([_real(f(float(x)), "MalformedMapping") for x in th], dtype=float)
+    r = f(th)
+    try:
+        out = np.asarray(r)
+    except Exception as ex:  # noqa  ragged / unconvertible values
+        raise _Malformed("MalformedMapping") from ex
+    if out.shape != th.shape or out.dtype.kind not in "fiu":
+        raise _Malformed("MalformedMapping")
+    return out.astype(float)
 
 
 def _hand_over(x, form, rng):
@@ -230,68 +316,78 @@ def run_scenario(sc):
         tsb, bufb = _hand_over(tb[keepb], form, rng)
     rec = {"n": N, "missA": list(sc["missA"]), "missB": list(sc["missB"]), "indices": bool(sc["indices"]), "ia": [], "ib": [],
            "matched": "bad", "drift": "bad", "exc": "", "scenario": sc, "map_err_ms": None, "drift_err_ppm": None}
-    # what the call finds: earlier calls in the same process (results dropped; whatever they do is not judged here)
     try:
-        if pre == "repeat":
-            _call(sync_timestamps, tsa, tsb, sc, not sc["indices"], sc["linear"])
-        elif pre == "reverse":
-            _call(sync_timestamps, tsb, tsa, sc, True, not sc["linear"])
-        elif pre in ("same-a", "same-b"):
-            # a third clock C of the same events: other drift, other offset, other events missing
-            keepc = np.setdiff1d(np.arange(N), rng.choice(N, int(rng.integers(0, 6)), replace=False))
-            tc = (t * (1 + rng.uniform(-100, 100) * 1e-6) + rng.uniform(-300, 300) + rng.uniform(-jit, jit, N))[keepc]
-            if pre == "same-a":
-                _call(sync_timestamps, tsa, tc, sc, True, sc["linear"])
-            else:
-                _call(sync_timestamps, tc, tsb, sc, True, sc["linear"])
-        elif pre == "same-span":
-            da, db = _decoy(rng, tsa.size, tsb.size, min(tsa.min(), tsb.min()), max(tsa.max(), tsb.max()))
-            _call(sync_timestamps, da, db, sc, True, sc["linear"])
-        elif pre == "fail":
-            for bad in ((tsa, tsb[:0]), (tsa[:0], tsb), (tsa, np.full(tsb.size, np.nan))):
-                try:
-                    _call(sync_timestamps, bad[0], bad[1], sc, True, sc["linear"])
-                except Exception:  # noqa  outside the quantifier: only its after-effects matter
-                    pass
-    except Exception:  # noqa  the earlier call is not the judged one
-        pass
-    try:
-        if sc["indices"]:
-            f, drift, ia, ib = _call(sync_timestamps, tsa, tsb, sc, True, sc["linear"])
-            rec["ia"], rec["ib"] = [int(x) for x in ia], [int(x) for x in ib]
-            _ = tsa[ia], tsb[ib]       # "indices for tsa and tsb": usable as such
-        else:
-            f, drift = _call(sync_timestamps, tsa, tsb, sc, False, sc["linear"])
-        drift = float(drift)
-        # what happens before the mapping is used: a later call on another recording, the caller reuses its arrays
-        if "decoy" in post:
-            da, db = _decoy(rng, tsa.size, tsb.size, min(tsa.min(), tsb.min()), max(tsa.max(), tsb.max()))
+        with _deadline(CALL_DEADLINE_S):
+            # what the call finds: earlier calls in the same process (results dropped; whatever they do is not judged here)
             try:
-                _call(sync_timestamps, da, db, sc, bool(sc["indices"]), sc["linear"])
-            except Exception:  # noqa  the later call is not the judged one
+                if pre == "repeat":
+                    _call(sync_timestamps, tsa, tsb, sc, not sc["indices"], sc["linear"])
+                elif pre == "reverse":
+                    _call(sync_timestamps, tsb, tsa, sc, True, not sc["linear"])
+                elif pre in ("same-a", "same-b"):
+                    # a third clock C of the same events: other drift, other offset, other events missing
+                    keepc = np.setdiff1d(np.arange(N), rng.choice(N, int(rng.integers(0, 6)), replace=False))
+                    tc = (t * (1 + rng.uniform(-100, 100) * 1e-6) + rng.uniform(-300, 300) + rng.uniform(-jit, jit, N))[keepc]
+                    if pre == "same-a":
+                        _call(sync_timestamps, tsa, tc, sc, True, sc["linear"])
+                    else:
+                        _call(sync_timestamps, tc, tsb, sc, True, sc["linear"])
+                elif pre == "same-span":
+                    da, db = _decoy(rng, tsa.size, tsb.size, min(tsa.min(), tsb.min()), max(tsa.max(), tsb.max()))
+                    _call(sync_timestamps, da, db, sc, True, sc["linear"])
+                elif pre == "fail":
+                    for bad in ((tsa, tsb[:0]), (tsa[:0], tsb), (tsa, np.full(tsb.size, np.nan))):
+                        try:
+                            _call(sync_timestamps, bad[0], bad[1], sc, True, sc["linear"])
+                        except (Exception, SystemExit):  # noqa  outside the quantifier: only its after-effects matter
+                            pass
+            except (Exception, SystemExit):  # noqa  the earlier call is not the judged one
                 pass
-        if "scribble" in post:
-            for buf in (bufa, bufb):
-                if buf is not None and buf.flags.writeable:
-                    buf[...] = rng.uniform(-1e3, 1e3, buf.shape)
-        # held-out events inside the span of the events both sides have
-        both = np.intersect1d(keepa, keepb)
-        lo, hi = t[both].min(), t[both].max()
-        th = t_held[(t_held > lo) & (t_held < hi)]
-        if sc.get("eval", "vector") == "scalar":
-            fth = np.array([float(f(float(x))) for x in th])
-        else:
-            fth = np.asarray(f(th))
-        err = float(np.max(np.abs(fth - (th * a + b)))) if th.size else 0.0
-        rec["map_err_ms"] = round(err * 1e3, 4)
-        rec["matched"] = "ok" if err <= 2e-3 else "bad"
-        nb, T = both.size, hi - lo
-        sig = np.sqrt(2) * (jit / np.sqrt(3)) * np.sqrt(12 / nb) / T * 1e6
-        derr = abs(drift - (sc["drift_ppm"] if sc["special"] != "alias" else 0.0))
-        rec["drift_err_ppm"] = round(derr, 4)
-        rec["drift"] = "ok" if derr <= 5 + 10 * sig else "bad"
-    except Exception as ex:  # noqa  the property says the call returns a mapping
-        rec["exc"] = type(ex).__name__
+            # held-out events inside the span of the events both sides have
+            both = np.intersect1d(keepa, keepb)
+            lo, hi = t[both].min(), t[both].max()
+            th = t_held[(t_held > lo) & (t_held < hi)]
+            fth = None
+            try:
+                ret = _call(sync_timestamps, tsa, tsb, sc, bool(sc["indices"]), sc["linear"])
+                try:
+                    ret = tuple(ret)           # whatever unpacks like the documented tuple
+                except TypeError as ex:
+                    raise _Malformed("MalformedReturn") from ex
+                if len(ret) != (4 if sc["indices"] else 2):
+                    raise _Malformed("MalformedReturn")
+                f, drift = ret[0], _real(ret[1], "MalformedDrift")
+                if sc["indices"]:
+                    ia, ib = ret[2], ret[3]
+                    rec["ia"], rec["ib"] = _index_vector(ia, "MalformedIndices"), _index_vector(ib, "MalformedIndices")
+                    _ = tsa[ia], tsb[ib]       # "indices for tsa and tsb": usable as such
+                # what happens before the mapping is used: a later call on another recording, the caller reuses its arrays
+                if "decoy" in post:
+                    da, db = _decoy(rng, tsa.size, tsb.size, min(tsa.min(), tsb.min()), max(tsa.max(), tsb.max()))
+                    try:
+                        _call(sync_timestamps, da, db, sc, bool(sc["indices"]), sc["linear"])
+                    except (Exception, SystemExit):  # noqa  the later call is not the judged one
+                        pass
+                if "scribble" in post:
+                    for buf in (bufa, bufb):
+                        if buf is not None and buf.flags.writeable:
+                            buf[...] = rng.uniform(-1e3, 1e3, buf.shape)
+                fth = _eval_map(f, th, sc.get("eval", "vector") == "scalar")
+            except (Exception, SystemExit) as ex:  # noqa  the property says the call returns a mapping (a drift, index vectors)
+                rec["exc"] = ex.what if isinstance(ex, _Malformed) else type(ex).__name__
+            if not rec["exc"]:
+                # the harness's own arithmetic, on values that are real numbers by now (NaN / inf fail the comparisons)
+                err = float(np.max(np.abs(fth - (th * a + b)))) if th.size else 0.0
+                rec["map_err_ms"] = round(err * 1e3, 4)
+                rec["matched"] = "ok" if err <= 2e-3 else "bad"
+                nb, T = both.size, hi - lo
+                sig = np.sqrt(2) * (jit / np.sqrt(3)) * np.sqrt(12 / nb) / T * 1e6
+                derr = abs(drift - (sc["drift_ppm"] if sc["special"] != "alias" else 0.0))
+                rec["drift_err_ppm"] = round(derr, 4)
+                rec["drift"] = "ok" if derr <= 5 + 10 * sig else "bad"
+    except _Hang:
+        # no return within the deadline (the judged call, or a call of the same function around it, does not end)
+        rec["exc"], rec["matched"], rec["drift"] = "Timeout", "bad", "bad"
     return rec
 
 
@@ -304,8 +400,23 @@ def _strip(t):
 
 
 def _validate(ctx, recs, label, jvms=3):
-    return tracecheck.validate(ctx, "trace/ClockSyncTrace.tla", "trace/ClockSyncTrace.cfg", [_strip(t) for t in recs],
-                               label=label, jvms=jvms, workers=2, nstates=nstates, timeout=900)
+    # index vectors of different lengths: the first conjunct of WellFormedP (Len(ia) = Len(ib)) is false.  The trace spec pairs the
+    # vectors element by element before it gets there (TLC stops with "out of bounds" when ia is the longer one), so this conjunct is
+    # decided here and TLC is given the common prefix
+    uneven = {i for i, t in enumerate(recs) if not t["exc"] and len(t["ia"]) != len(t["ib"])}
+    traces = []
+    for i, t in enumerate(recs):
+        t = _strip(t)
+        # TLC's integers have 32 bits: an index beyond them is clipped (it stays outside every series, as wrong as it was)
+        t["ia"], t["ib"] = [max(-10 ** 9, min(10 ** 9, v)) for v in t["ia"]], [max(-10 ** 9, min(10 ** 9, v)) for v in t["ib"]]
+        if i in uneven:
+            m = min(len(t["ia"]), len(t["ib"]))
+            t["ia"], t["ib"] = t["ia"][:m], t["ib"][:m]
+        traces.append(t)
+    out = tracecheck.validate(ctx, "trace/ClockSyncTrace.tla", "trace/ClockSyncTrace.cfg", traces,
+                              label=label, jvms=jvms, workers=2, nstates=nstates, timeout=900)
+    out = [v for v in out if v["index"] not in uneven] + [{"index": i, "prop": "WellFormed", "impl": "", "pos": 0} for i in uneven]
+    return sorted(out, key=lambda v: v["index"])
 
 
 def _describe(t):
@@ -437,7 +548,13 @@ def run(ctx):
                 "missB": [2, 5, 11, 16, 28]})
     scs.append({"N": 300, "gapmode": "rare-short", "drift_ppm": -100.0, "offset": -3.5, "jitter": 1e-4, "linear": False,
                 "indices": True, "seed": KNOWN_A_SEED, "special": "", "t0": 100.0, "missA": [], "missB": []})
-    recs = [run_scenario(sc) for sc in scs]
+    recs, hangs = [], 0
+    for sc in scs:
+        recs.append(run_scenario(sc))
+        hangs += recs[-1]["exc"] == "Timeout"
+        if hangs >= MAX_HANGS:
+            ctx.log(f"[C19] {hangs} scenarios ran into the deadline of {CALL_DEADLINE_S} s: the remaining {len(scs) - len(recs)} are not started")
+            break
     for t in recs:
         s = t["scenario"]
         ctx.count(1, key=(s["N"], tuple(s["missA"]), tuple(s["missB"]), s["seed"], s.get("form", ""), s.get("pre", ""),
